@@ -165,6 +165,23 @@ CHECKS["C05"]["text"] += " StreamChunker chunks, everything the StreamReader sho
 CHECKS["C10"]["engine"] = "iovec_mc+hcobs_mc+stream_mc"
 CHECKS["C10"]["text"] += " StreamReader: 12 MiB (quick) / 48 MiB (thorough) streams of seven kinds (empty, invalid, 1-byte, 300-byte, 5000-byte records, delimiter-free invalid garbage, a delimiter-free endless record the judge declares too big) x block sizes {4096, 65536, default} with the same footprint and chunk-plateau bounds, and a leak check after every StreamReader / StreamChunker run."
 
+CHECKS["C13"] = dict(
+    engine="abt_loom",
+    category="model_checking",
+    design="DESIGN.md section 4, C13",
+    technique="stateless model checking with loom 0.7.2 (DPOR over thread interleavings + C11 reads-from choices, pre-emption bounded) of the real atomic_base_time.rs compiled against loom-backed stand-ins (hook H3)",
+    text="Six harnesses over the real source (writer lapping both slots against a reader taking two snapshots; update vs try_update vs reader; three updates vs two readers; an older update that must be ignored; recency through a release/acquire flag; two blocking writers vs a reader) are explored exhaustively by loom at pre-emption bound 2 (quick) and 2, 3 and unbounded (thorough): every schedule at atomic-operation granularity and, for every atomic load, every store the C11 release/acquire/relaxed rules allow it to read. In every execution each snapshot must be a whole pair passed to an accepted update or the epoch pair (the crate's own voucher assertion also fires on a torn pair), at least as recent as every update that happens-before it, non-decreasing per thread; older updates are ignored; the final value is the maximum accepted; snapshot takes no lock.",
+    note="loom's model of C11 (no load buffering / out-of-thin-air), mutex poisoning not modelled, <= 3 threads besides main and <= 3 operations per thread; runs exploring fewer than 8 executions are refused as vacuous.",
+)
+CHECKS["C18"] = dict(
+    engine="abt_freeze+abt_loom",
+    category="model_checking",
+    design="DESIGN.md section 4, C18",
+    technique="explicit enumeration of suspension schedules: real OS threads running the real AtomicBaseTime (hook H3 observer as step hook), each writer held after exactly k of its atomic/lock steps, observer optionally paused mid-operation while another writer completes, then run alone; plus the loom harnesses' per-snapshot lock/load counters",
+    text="About 25 000 scenarios: start state (1 or 2 prior updates, writer lock poisoned or not) x observer in {snapshot, snapshot twice, try_update(newer), try_update(older), sequence} paused after each of its own steps (or not started) x {no / one writer completing a whole update meanwhile} x a writer in {update(newer), update(older), try_update(newer)} suspended after each of its steps 0..11 (before lock, holding the lock before/between/after each load and store, finished), or two writers at every pair of steps (including one parked in lock() behind the other); then the observer runs alone. It must return within 64 of its own steps, must never be found inside lock() behind a suspended writer, snapshot must perform no lock operation and only as many loads as completed writes justify, try_update exactly one try_lock and false unless it acquired the lock. The loom harnesses of C13 additionally assert 0 lock operations and a bounded number of loads per snapshot under real interleavings.",
+    note="Step points are the stand-in operations of hook H3; lock hand-off is decided by the controller (virtual parking), never by an OS race, so every scenario is deterministic. More than two suspended writers are not enumerated.",
+)
+
 ALL = ["C%02d" % i for i in range(1, 21)]
 
 NOT_YET = "check not built yet (work in progress; see DESIGN.md section 4 for the planned bounded-exhaustive formulation)"
